@@ -355,6 +355,23 @@ UsesReverseAxis(e) ==
     [] e.op = "neg" -> UsesReverseAxis(e.a)
     [] OTHER -> UsesReverseAxis(e.l) \/ UsesReverseAxis(e.r)
 
+\* does the expression refer to a variable (anywhere)?
+RECURSIVE RefsVar(_)
+StepsRefVar(steps) == \E i \in 1..Len(steps) :
+   IF "fn" \in DOMAIN steps[i] THEN RefsVar(steps[i].fn) ELSE \E j \in 1..Len(steps[i].preds) : RefsVar(steps[i].preds[j])
+RefsVar(e) ==
+  CASE e.op \in {"num", "lit"} -> FALSE
+    [] e.op = "var" -> TRUE
+    [] e.op = "call" -> \E i \in 1..Len(e.args) : RefsVar(e.args[i])
+    [] e.op = "path" -> StepsRefVar(e.steps)
+    [] e.op = "filter" -> RefsVar(e.prim) \/ StepsRefVar(e.steps) \/ \E j \in 1..Len(e.preds) : RefsVar(e.preds[j])
+    [] e.op = "neg" -> RefsVar(e.a)
+    [] OTHER -> RefsVar(e.l) \/ RefsVar(e.r)
+\* a variable evaluates to exactly the bound value (C11): when the caller binds a node-set that is not in ascending
+\* document order, an expression over variables may hand that order on - it then only has to be monotone
+MayHandOnOrder(e, env) == RefsVar(e) /\ \E i \in 1..Len(env.vars) :
+   LET w == env.vars[i].val IN w.t = "ns" /\ \E k \in 1..(Len(w.v) - 1) : w.v[k] > w.v[k + 1]
+
 \* does the expression call the function named nm (anywhere)?
 RECURSIVE CallsFn(_, _)
 StepsCall(steps, nm) == \E i \in 1..Len(steps) :
